@@ -287,7 +287,7 @@ class C15(Check):
                   'stub': ['clock (stats + cookie seams)', 'random.random, os.urandom', 'client + WSGI server']}
     level_text = 'Lock-step differential simulation of client histories against a reference twin; sampled.'
     level_note = 'Trusted: the bare application as the reference; gzip.decompress.'
-    required_probes = ('unsolicited-cookie-header', 'long-history', 'concurrent-batch', 'gzip-compressed', 'gzip-not-accepted-identity', 'error-through-stack', 'null-route-through-stack',
+    required_probes = ('environ-without-optional-keys', 'unsolicited-cookie-header', 'long-history', 'concurrent-batch', 'gzip-compressed', 'gzip-not-accepted-identity', 'error-through-stack', 'null-route-through-stack',
                        'head-through-gzip', 'clock-jump-within-request', 'mw-gzip', 'mw-stats', 'mw-cookie', 'mw-cache')
 
     def generate(self, seed, tier):
@@ -302,7 +302,7 @@ class C15(Check):
         for _ in range(rng.randint(6, 40)):
             ae = rng.randrange(len(AES))
             op = {'path': rng.choice(PATHS), 'method': rng.choice(METHODS), 'ae': ae, 'dt': 0, 'jitter': [], 'draws': [],
-                  'cookie': rng.randrange(len(COOKIES)) if rng.random() < 0.15 else 0}
+                  'cookie': rng.randrange(len(COOKIES)) if rng.random() < 0.15 else 0, 'lean_environ': rng.random() < 0.2}
             if erng.random() < 0.3:
                 op['dt'] = erng.choice([0.001, 1, 59, 3600, -5, 86400 * 40])
             if erng.random() < 0.2:
@@ -459,7 +459,19 @@ class C15(Check):
                 body = b'unread_p=pv&x=1' if op['method'] == 'POST' else b''
                 if op['method'] == 'POST':
                     hdr['Content-Type'] = 'application/x-www-form-urlencoded'
-                return make_environ(op['method'], op['path'], headers=hdr, body=body)
+                env = make_environ(op['method'], op['path'], headers=hdr, body=body)
+                if op.get('lean_environ'):
+                    # a server that leaves out what PEP 3333 lets it leave out: empty SCRIPT_NAME / QUERY_STRING,
+                    # CONTENT_TYPE / CONTENT_LENGTH of a request without body
+                    if not env.get('SCRIPT_NAME'):
+                        env.pop('SCRIPT_NAME', None)
+                    if not env.get('QUERY_STRING'):
+                        env.pop('QUERY_STRING', None)
+                    if op['method'] != 'POST':
+                        env.pop('CONTENT_TYPE', None)
+                        env.pop('CONTENT_LENGTH', None)
+                    res.probe('environ-without-optional-keys')
+                return env
 
             for step, op in enumerate(plan['ops']):
                 if 'repeat' in op:
